@@ -702,6 +702,19 @@ func assignFromCall(n *node) {
 		}
 		dvalue[i] = genValue(n.child[i])
 	}
+	// A result of concrete type assigned to a variable of interface type is
+	// wrapped as in a single assignment, so that its type and methods are retained.
+	var rtypes []*itype
+	if ft := ncall.child[0].typ; ft != nil && ft.cat == funcT {
+		rtypes = ft.ret
+	}
+	svalue := make([]func(*frame) reflect.Value, l)
+	for i := range svalue {
+		if c := n.child[i]; dvalue[i] != nil && i < len(rtypes) && c.typ != nil && isInterface(c.typ) && !isEmptyInterface(c.typ) && !isInterface(rtypes[i]) {
+			res := &node{interp: n.interp, scope: n.scope, pos: ncall.pos, kind: identExpr, typ: rtypes[i], findex: ncall.findex + i, level: ncall.level}
+			svalue[i] = genDestValue(c.typ, res)
+		}
+	}
 	next := getExec(n.tnext)
 	n.exec = func(f *frame) bltn {
 		for i, v := range dvalue {
@@ -709,6 +722,9 @@ func assignFromCall(n *node) {
 				continue
 			}
 			s := f.data[ncall.findex+i]
+			if svalue[i] != nil {
+				s = svalue[i](f)
+			}
 			c := n.child[i]
 			if n.kind == defineXStmt && !c.redeclared {
 				// Recreate destination value in case of define statement,
@@ -833,8 +849,13 @@ func assign(n *node) {
 			if n.child[i].ident == "_" {
 				continue
 			}
-			t[i] = reflect.New(types[i]).Elem()
-			t[i].Set(s(f))
+			// The value may already be wrapped for a destination of interface type.
+			if v := s(f); v.IsValid() {
+				t[i] = reflect.New(v.Type()).Elem()
+				t[i].Set(v)
+			} else {
+				t[i] = reflect.New(types[i]).Elem()
+			}
 		}
 		// The keys of map entries are evaluated before any assignment.
 		var keys []reflect.Value
@@ -1391,9 +1412,9 @@ func call(n *node) {
 			switch {
 			case c.ident == "_":
 				// Skip assigning return value to blank var.
-			case isInterfaceSrc(c.typ) && !isEmptyInterface(c.typ) && !isInterfaceSrc(rtypes[i]):
-				rvalues[i] = genValueInterfaceValue(c)
 			default:
+				// The results are stored in the frame entries of the call, from which
+				// the assignment sets the variables (see assignFromCall).
 				j := n.findex + i
 				rvalues[i] = func(f *frame) reflect.Value { return getFrame(f, l).data[j] }
 			}
